@@ -252,6 +252,7 @@ def stub_sp_save(interp, b):
 class JobInit(FSContract):
     target = f"{JOB}.Job.init"
     properties = ("C02", "C03", "C09", "C11")
+    shard_bits = 2
     inline = GETTERS + (f"{JOB}.Job.statepoint", f"{JOB}._StatePointDict.__init__", f"{PRJ}.Project._register")
     callees = {"signac._utility._mkdir_p": stub_mkdir_p, f"{JOB}._StatePointDict.load": stub_sp_load, f"{JOB}._StatePointDict.save": stub_sp_save}
 
